@@ -72,9 +72,42 @@ def bind_rule(P, R, K):
             R.anchor_missing("C02.bind", "%s: only %d store look-ups found" % (q, n))
 
 
+def stage_rule(P, R):
+    """Phreeqc::state orders the calculation stages (initial solution/exchange/surface/gas < REACTION < inverse/advection/
+    transport).  Dozens of places switch mass-balance bookkeeping (diffuse-layer water, H/O balances, surface-related
+    corrections) on "is this a reaction-or-later stage": they all test `state >= REACTION` or `state < REACTION`.  A test
+    that puts the stage constant itself on the other side (`state > REACTION`) makes that one correction disagree with all
+    the others for batch reactions - e.g. the diffuse-layer water is not subtracted from the H/O totals and water is created."""
+    import collections
+    R.rule("C02.stage", "all relational tests of the calculation stage against one stage constant put that constant on the same side", minimum=25)
+    sites = collections.defaultdict(list)
+    flip = {"<": ">", ">": "<", "<=": ">=", ">=": "<="}
+    for key, f in sorted(P.functions.items()):
+        for x in T.walk(f["body"]):
+            if x[0] == "Bin" and x[2] in flip:
+                a, b = T.strip_casts(x[3]), T.strip_casts(x[4])
+                for s_, o_, op in ((a, b, x[2]), (b, a, flip[x[2]])):
+                    if T.is_node(s_) and s_[0] == "Member" and s_[2] == "Phreeqc::state":
+                        v = T.lit_value(o_)
+                        if v is not None:
+                            sites[v].append((v if op in (">=", "<") else v + 1, op, f, x[1]))
+    for v, lst in sorted(sites.items()):
+        cnt = collections.Counter(c for c, _, _, _ in lst)
+        major, nmaj = cnt.most_common(1)[0]
+        for cut, op, f, line in lst:
+            inst = "stage %d:%s@%d" % (v, f["q"].split("::")[-1], line)
+            if cut == major or len(lst) < 5:
+                R.ok("C02.stage", inst, "state %s %d" % (op, v))
+            else:
+                R.violation("C02.stage", inst, "`state %s %d` puts stage %d on the other side than the %d other tests of the same stage constant (they use %s): this "
+                            "bookkeeping switch disagrees with the rest of the engine for exactly that stage" % (op, v, v, nmaj, "`>=` / `<`" if major == v else "`>` / `<=`"),
+                            file=f["file"], line=line, function=f["q"])
+
+
 def run(P, R, tier):
     K = KN.get(P)
     bind_rule(P, R, K)
+    stage_rule(P, R)
     R.undecided += ["(c) the arithmetic inside each part (add_reaction, add_exchange, xexchange_save, totalize callees): dropped term, wrong coefficient, sign",
                     "(d) nothing becomes negative", "conservation itself (a numerical statement)"]
     # ------------------------------------------------------------------ C02.assemble
